@@ -37,6 +37,8 @@ func (p *Prog) BoundMethodTarget(v ssa.Value) *ssa.Function {
 }
 
 func runC13(c *Check) {
+	LostReceiverStores(c, "C13.CFG", "message/router/middleware")
+	DefaultsApplied(c, "C13.CFG", "message/router/middleware")
 	P := "C13"
 	var outers []*ssa.Function
 	seen := map[*ssa.Function]bool{}
@@ -292,6 +294,24 @@ func c13Helper(c *Check, P string, m *MW, d *ssa.Function, site ssa.CallInstruct
 		elems := VariadicElems(Arg(pb, 1))
 		okMsg := len(elems) == 1 && FromParam(msgP)(elems[0])
 		c.Report(okMsg, P+".O2", "POISON-MESSAGE", H, pb.Pos(), k, "exactly the consumed message object is published (same UUID and payload)")
+		// … and its identity is left alone: neither the helper nor the middleware closure assigns its UUID or payload
+		for _, f := range []*ssa.Function{H, d} {
+			if f == nil {
+				continue
+			}
+			AllInstrs(f, func(in ssa.Instruction) {
+				st, isSt := in.(*ssa.Store)
+				if !isSt {
+					return
+				}
+				fld, base := FieldOf(st.Addr)
+				if fld == nil || base == nil || (fld.Name() != "UUID" && fld.Name() != "Payload") || !fld.Exported() || NamedOf(base.Type()) == nil || NamedOf(base.Type()).Obj().Name() != "Message" {
+					return
+				}
+				c.Report(false, P+".O2", "POISON-KEEPS-IDENTITY", f, st.Pos(), "store to "+fld.Name(), "the poisoned message keeps its UUID and payload: nothing in the poison queue assigns them")
+			})
+		}
+		c.Report(true, P+".O2", "POISON-IDENTITY-SCANNED", H, pb.Pos(), k, "helper and middleware closure scanned for assignments to the message's UUID / payload")
 		// returned error = Publish result
 		for r, vals := range ReturnValues(H, 0) {
 			for _, v := range vals {
